@@ -49,12 +49,14 @@ def guards():
     add("C05 repaired", mc("MC_C05", r05, ["StrainRefines"], N2), None)
     add("C05 gather by arrival", mc("MC_C05", dict(r05, Gather='"by_arrival"'), ["StrainRefines"], N2), "StrainRefines")
     t = dict(NF=2, MaxBox=2, MaxFile=2, MaxCorrupt=2, Kinds='{"CellHIdx","FodOffset"}', CheckFirstHeader="TRUE", SortOffsets="TRUE",
-             EOFRule="TRUE", OptMode='"default"', DataCheckBroken="TRUE")
+             EOFRule="TRUE", ExactNext="TRUE", OptMode='"default"', DataCheckBroken="TRUE")
     tinv = ["AcceptsWellFormed", "RejectsDamaged", "AcceptedIsReadable"]
     add("Taste repaired (pairs)", mc("MC_Taste", t, tinv), None)
     add("Taste first header unchecked", mc("MC_Taste", dict(t, CheckFirstHeader="FALSE"), tinv), "RejectsDamaged")
     add("Taste no end-of-file rule", mc("MC_Taste", dict(t, EOFRule="FALSE", MaxCorrupt=1, Kinds='{"Extend"}'), tinv), "RejectsDamaged")
     add("Taste first header unchecked (cut header)", mc("MC_Taste", dict(t, CheckFirstHeader="FALSE", MaxCorrupt=1, Kinds='{"HeadCut"}'), tinv), "RejectsDamaged")
+    add("Taste positions instead of header bytes (values moved between two FABs)", mc("MC_Taste", dict(t, ExactNext="FALSE", MaxCorrupt=1, Kinds='{"DataShift"}'), tinv), "RejectsDamaged")
+    add("Taste header bytes compared (values moved between two FABs)", mc("MC_Taste", dict(t, MaxCorrupt=1, Kinds='{"DataShift"}'), tinv), None)
     add("Taste header-order walk", mc("MC_Taste", dict(t, SortOffsets="FALSE", MaxCorrupt=0, Kinds="{}", MaxBox=3), tinv), "AcceptsWellFormed")
     r06 = dict(MaxLev=1, MaxBox=3, MaxFile=2, MaxBox2=1, W=2, SchedMode='"fifo"', MapOrder='"disk"', ModeAssign='"assign"')
     F = {"F1": '<<"a","b">>', "F2": '<<"a","c">>'}
@@ -89,6 +91,10 @@ def guards():
     add("ChefSel index list (the code)", mc("ChefSel", cs, ["OwnName"]), None)
     add("ChefSel consecutive block read as a slice", mc("ChefSel", dict(cs, IndexMode='"slice_if_block"'), ["OwnName"]), "OwnName")
     add("ChefSel sorted indexes", mc("ChefSel", dict(cs, IndexMode='"sorted"'), ["OwnName"]), "OwnName")
+    add("FieldKeys first free number (the code)", mc("MC_Keys", dict(Alphabet='{"a","b","a_2"}', MaxFields=3, Numbering='"first-free"'), ["KeysRefine"]), None)
+    add("FieldKeys numbered by occurrence count", mc("MC_Keys", dict(Alphabet='{"a","b","a_2"}', MaxFields=3, Numbering='"count"'), ["KeysRefine"]), "KeysRefine")
+    add("BufWriter files closed explicitly", mc("BufWriter", dict(NWrites=3, Cap=4, DevFailsAt=1, CloseMode='"explicit"'), ["LossIsReported"], spec="Spec"), None)
+    add("BufWriter file left to its finaliser", mc("BufWriter", dict(NWrites=3, Cap=4, DevFailsAt=1, CloseMode='"finaliser"'), ["LossIsReported"], spec="Spec"), "LossIsReported")
     add("PoolLife pool kept referenced", mc("PoolLife", dict(N=2, KeepRef="TRUE"), ["NoWedge"], props=["CallerFinishes"], spec="Spec"), None)
     add("PoolLife empty job, pool dropped", mc("PoolLife", dict(N=0, KeepRef="FALSE"), ["NoWedge"], spec="Spec"), "NoWedge")
     add("PoolLife workers faster than the task handler", mc("PoolLife", dict(N=2, KeepRef="FALSE"), ["NoWedge"], spec="Spec"), "NoWedge")
